@@ -248,28 +248,46 @@ func GoroutineID() string { return strconv.FormatUint(verifGoid(), 10) }
 
 //go:norace
 func (s *Sched) drain() {
+	// Requests that arrived since the last quiescence: which of several runnable
+	// goroutines reached its yield first is decided by the Go runtime (it can
+	// vary under load: asynchronous preemption), so the batch is put into
+	// creation order of the goroutines (goroutine ids grow with creation on the
+	// single P) before names are given out and the parked list is extended.
+	var batch []*request
 	for {
 		select {
 		case r := <-s.reqCh:
-			g := s.gs[r.goid]
-			if g == nil {
-				name := r.name
-				if r.kind == 0 {
-					n := s.nameN[r.site]
-					s.nameN[r.site] = n + 1
-					name = r.site + "#" + strconv.Itoa(n)
-				}
-				g = &G{ID: r.goid, Name: name, Seq: s.nextG}
-				s.nextG++
-				s.gs[r.goid] = g
-			}
-			if r.kind == 0 {
-				g.Site = r.site
-				g.req = r
-				s.parked = append(s.parked, g)
-			}
+			batch = append(batch, r)
+			continue
 		default:
-			return
+		}
+		break
+	}
+	if len(batch) > 1 {
+		// insertion sort, stable: the requests of one goroutine keep their order
+		for i := 1; i < len(batch); i++ {
+			for j := i; j > 0 && batch[j-1].goid > batch[j].goid; j-- {
+				batch[j-1], batch[j] = batch[j], batch[j-1]
+			}
+		}
+	}
+	for _, r := range batch {
+		g := s.gs[r.goid]
+		if g == nil {
+			name := r.name
+			if r.kind == 0 {
+				n := s.nameN[r.site]
+				s.nameN[r.site] = n + 1
+				name = r.site + "#" + strconv.Itoa(n)
+			}
+			g = &G{ID: r.goid, Name: name, Seq: s.nextG}
+			s.nextG++
+			s.gs[r.goid] = g
+		}
+		if r.kind == 0 {
+			g.Site = r.site
+			g.req = r
+			s.parked = append(s.parked, g)
 		}
 	}
 }
@@ -330,7 +348,12 @@ func (s *Sched) step() (Status, *G) {
 	if len(enabled) == 0 {
 		return LockDeadlock, nil
 	}
-	sort.Slice(enabled, func(i, j int) bool { return enabled[i].Name < enabled[j].Name })
+	sort.Slice(enabled, func(i, j int) bool {
+		if enabled[i].Name != enabled[j].Name {
+			return enabled[i].Name < enabled[j].Name
+		}
+		return enabled[i].Seq < enabled[j].Seq
+	})
 	cur := -1
 	for i, g := range enabled {
 		if g == s.cur {
